@@ -164,6 +164,10 @@ pub struct EncEnv {
     /// when true the EID is installed by processing a forged Set Endpoint ID
     /// request (both halves get `eid_resp`) instead of through the accessors
     pub eid_via_process: bool,
+    /// operations applied to the sender's context before the EID state is
+    /// installed and the encoder is called (prior history of the context)
+    #[serde(default)]
+    pub hist: Vec<Op>,
 }
 
 /// Configuration of a receiving / responding context.
